@@ -34,12 +34,12 @@ QPos(n) == Cardinality({j \in 1..n : IsQ(log[j])})
 ChPos(n) == Cardinality({j \in 1..n : IsCh(log[j])})
 Mx(a, b) == IF a > b THEN a ELSE b
 
-Init == /\ i = 1 /\ tr = -1 /\ log = <<>> /\ hr = {} /\ he = {} /\ tl = [c |-> FALSE, ch |-> FALSE]
+Init == /\ i = 1 /\ tr = -1 /\ log = <<>> /\ hr = {} /\ he = {} /\ tl = [c |-> 0, ch |-> 0]
         /\ cb = 0 /\ cov = [pts |-> 0, qts |-> 0, ch |-> 0] /\ stor = [pts |-> 0, qts |-> 0, seq |-> 0, ch |-> -1]
         /\ crashed = FALSE /\ offered = {}
 
 Reset == /\ Ev.ev = "reset"
-         /\ tr' = Ev.trace /\ log' = Ev.log /\ hr' = {} /\ he' = {} /\ tl' = [c |-> FALSE, ch |-> FALSE]
+         /\ tr' = Ev.trace /\ log' = Ev.log /\ hr' = {} /\ he' = {} /\ tl' = [c |-> 0, ch |-> 0]
          /\ cb' = 0 /\ cov' = [pts |-> 0, qts |-> 0, ch |-> 0]
          /\ stor' = [pts |-> 0, qts |-> 0, seq |-> 0, ch |-> IF Ev.tracked0 THEN 0 ELSE -1]
          /\ crashed' = FALSE /\ offered' = {}
@@ -47,9 +47,9 @@ Reset == /\ Ev.ev = "reset"
 Skip == /\ Ev.ev \in {"act", "post"} /\ UNCHANGED <<tr, log, hr, he, tl, cb, cov, stor, crashed, offered>>
 
 Covered(j) ==
-  IF IsC(log[j]) THEN CPos(j) <= cov.pts \/ tl.c
-  ELSE IF IsQ(log[j]) THEN QPos(j) <= cov.qts \/ tl.c
-  ELSE ChPos(j) <= cov.ch \/ ChPos(j) <= cb \/ tl.ch
+  IF IsC(log[j]) THEN CPos(j) <= cov.pts \/ j <= tl.c
+  ELSE IF IsQ(log[j]) THEN QPos(j) <= cov.qts \/ j <= tl.c
+  ELSE ChPos(j) <= cov.ch \/ ChPos(j) <= cb \/ j <= tl.ch
 SameSeq(a, b) == (IsC(log[a]) /\ IsC(log[b])) \/ (IsQ(log[a]) /\ IsQ(log[b])) \/ (IsCh(log[a]) /\ IsCh(log[b]))
 
 Handler ==
@@ -66,9 +66,9 @@ Handler ==
 
 PersistOK(s, base) ==
   \A j \in 1..Len(log) :
-     /\ (IsC(log[j]) /\ Deliverable(log[j]) /\ CPos(j) <= s.pts) => (j \in he \/ tl.c)
-     /\ (IsQ(log[j]) /\ QPos(j) <= s.qts) => (j \in he \/ tl.c)
-     /\ (IsCh(log[j]) /\ s.ch # -1 /\ ChPos(j) <= s.ch /\ ChPos(j) > base) => (j \in he \/ tl.ch)
+     /\ (IsC(log[j]) /\ Deliverable(log[j]) /\ CPos(j) <= s.pts) => (j \in he \/ j <= tl.c)
+     /\ (IsQ(log[j]) /\ QPos(j) <= s.qts) => (j \in he \/ j <= tl.c)
+     /\ (IsCh(log[j]) /\ s.ch # -1 /\ ChPos(j) <= s.ch /\ ChPos(j) > base) => (j \in he \/ j <= tl.ch)
 
 Store ==
   /\ Ev.ev = "s"
@@ -94,7 +94,8 @@ Diff ==
 
 TooLong ==
   /\ Ev.ev = "tl"
-  /\ tl' = [tl EXCEPT ![Ev.k] = TRUE]
+  \* the report covers what the server held when it was made (updates produced later form a new gap)
+  /\ tl' = [tl EXCEPT ![Ev.k] = Mx(@, Ev.upto)]
   /\ UNCHANGED <<tr, log, hr, he, cb, cov, stor, crashed, offered>>
 
 Restart ==
@@ -107,8 +108,8 @@ NoLoss(n, tracked) ==
   \A j \in 1..n :
      \/ j \in he \/ ~Deliverable(log[j])
      \/ (IsCR(log[j]) /\ j \notin offered)
-     \/ (IsCh(log[j]) /\ (~tracked \/ ChPos(j) <= cb \/ tl.ch))
-     \/ (~IsCh(log[j]) /\ tl.c)
+     \/ (IsCh(log[j]) /\ (~tracked \/ ChPos(j) <= cb \/ j <= tl.ch))
+     \/ (~IsCh(log[j]) /\ j <= tl.c)
 
 Quiesced ==
   /\ Ev.ev = "quiesced"
